@@ -1,6 +1,8 @@
 (* model: reads "<command> <sexp>" lines on stdin, prints one result s-expression per line.
    Exceptions of the driver itself (bad shape, stack overflow) are reported as (drivererror ..). *)
+(* force linking of the driver modules (each registers its commands) *)
 let () = Drv_check.(ignore of_error)
+let () = Dfa_io.(ignore of_inp)
 
 let () =
   let ic = stdin in
